@@ -25,7 +25,7 @@ func init() {
 			StatesMean:  "distinct container states by reflective dump (Q, K) plus distinct lexer inputs (T); transitions = container operations compared with the model / token streams checked",
 			Assumptions: []string{"inputs whose indentation mixes tabs and spaces in one line make the lexer panic before a stream exists: that is C05's subject, such inputs are counted and skipped here", "containers are explored for int payloads (parametric in T)"},
 		},
-		QuickBudget: 70 * time.Second, ThoroughBudget: 12 * time.Minute, CrashIsViolation: true,
+		QuickBudget: 180 * time.Second, ThoroughBudget: 12 * time.Minute, CrashIsViolation: true,
 		Run: runC20,
 	})
 }
